@@ -82,7 +82,7 @@ static std::string variant_name(int v) {
     return s;
 }
 struct Units { double unit, precision; };
-static const Units UNITS[] = {{1e-6, 1e-9}, {1e-3, 1e-6}, {1e-6, 5e-10}};
+static const Units UNITS[] = {{1e-6, 1e-9}, {1e-3, 1e-6}, {1e-6, 5e-10}, {1e-6, 1e-6 / 16}};   // the last: precision/unit is an exact power of 16 (8-byte real with mantissa 1/16)
 // namelen > 0: the library name is that many characters long (LIBNAME is the one variable-length record before UNITS)
 static std::string libname_of(int namelen) {
     if (namelen <= 0) return "C17LIB";
@@ -714,7 +714,7 @@ int main(int argc, char** argv) {
         for (int v = NBASE; v < nvariant_all(); v++) { int m = g_masks[v - NBASE]; if (m == 17 || m == 6 || m == 12 || m == 31 || m == 26) variants.push_back(v); }
         perms = {0, 23, 9};
     }
-    const int nu = 3;
+    const int nu = 4;
     struct Job { int variant, ui, perm, indep, namelen, big; };
     std::vector<Job> jobs;
     for (size_t k = 0; k < g_indep.size(); k++) jobs.push_back({0, 0, 0, (int)k, 0, 0});
